@@ -46,6 +46,7 @@ def run(chk):
     # ranked before it) is the generator-side rule of C14.R4
     from . import c14
     chk.borrow(c14.r4, {"C14.R4": "C04.R7"})
+    chk.borrow(c14.r3, {"C14.R3": "C04.R7"})  # ... and the NEB tallies are sums of the NEB predicates' tables
 
 
 def roles_raire(fn):
@@ -620,3 +621,57 @@ def r6(chk):
     chk.ob("C04.R6", f"{RU}:RaireFrontier.replace_descendents", "subtree-replaced-by-its-root", ok,
            "all frontier nodes that descend from the given node are removed (positions collected over the whole frontier, deleted from "
            "the back) and the node itself is inserted", node=rd, strength="N", **detail)
+
+
+    # ---- the initial frontier: one node [d, c] for every alternative winner c (every candidate but the *reported* winner the
+    # function was given) and every other candidate d, each inserted unconditionally
+    fn = chk.fn(RA, "compute_raire_assertions")
+    params = [a.arg for a in fn.args.args]
+    wpar = params[2] if len(params) > 2 else "winner"
+    wl = [x for x in fn.body if isinstance(x, ast.While)]
+    ok = False
+    detail = {}
+    ins = [c for c in walk_local(fn) if isinstance(c, ast.Call) and isinstance(c.func, ast.Attribute) and c.func.attr == "insert_node"
+           and wl and c.lineno < wl[0].lineno]
+    if len(ins) == 1:
+        call = ins[0]
+        st = call
+        while not isinstance(st, ast.stmt):
+            st = parent(st)
+        loops = [a for a in ancestors(st) if isinstance(a, ast.For)]
+        conds = []
+        n_, p_ = st, parent(st)
+        while p_ is not None and p_ is not fn:
+            blk = None
+            for fld in ("body", "orelse"):
+                b_ = getattr(p_, fld, None)
+                if isinstance(b_, list) and n_ in b_:
+                    blk = b_
+            if blk is not None:
+                for prev in blk[:blk.index(n_)]:
+                    # a guard clause before us in the same block: `if T: continue`
+                    if isinstance(prev, ast.If) and not prev.orelse and len(prev.body) == 1 and isinstance(prev.body[0], ast.Continue):
+                        conds.append(symx.c_not(Tx().cond(prev.test)))
+                    elif any(isinstance(x, (ast.Continue, ast.Break, ast.Return)) for x in ast.walk(prev)):
+                        conds.append(("atom", "opaque:" + norm(prev)[:40]))
+            if isinstance(p_, ast.If):
+                c_ = Tx().cond(p_.test)
+                conds.append(c_ if n_ in p_.body else symx.c_not(c_))
+            n_, p_ = p_, parent(p_)
+        if len(loops) == 2:
+            inner, outer = loops
+            cv, dv = norm(outer.target), norm(inner.target)
+            got = symx.c_and(*conds) if conds else True
+            want = spec.cond_term(f"not ({cv} == {wpar}) and not ({cv} == {dv})")
+            node_arg = call.args[0] if call.args else None
+            nd = None
+            if isinstance(node_arg, ast.Name):
+                defs = [x for x in walk_local(outer) if isinstance(x, ast.Assign) and norm(x.targets[0]) == node_arg.id]
+                nd = norm(defs[0].value) if len(defs) == 1 else None
+            detail = dict(inserted_iff=fmt_cond(got) if got not in (True, False) else str(got), node_built=nd)
+            ok = got not in (True, False) and aud.cond_equiv(got, want)[0] and nd == f"RaireNode([{dv},{cv}])" \
+                and norm(outer.iter) == "contest.candidates" and norm(inner.iter) == "contest.candidates" \
+                and not [x for x in walk_local(outer) if isinstance(x, (ast.Break, ast.Return))]
+    chk.ob("C04.R6", f"{RA}:compute_raire_assertions", "initial-frontier-has-every-alternative-winner", ok,
+           "before the search starts the frontier holds the node [d, c] for every candidate c other than the reported winner passed "
+           "in and every candidate d other than c", node=ins[0] if ins else fn, strength="N", **detail)
